@@ -491,6 +491,68 @@ def step (st : State) : Op → M State
   | .swap o o' =>
     .ok { st with own := fun i => if i = o then st.own o' else if i = o' then st.own o else st.own i }
 
+/-! ### callbacks with effects (a call that changes the set of connections while it runs)
+
+A callback may, while the signal is being called, let go of a connection (its own excepted) or connect a new callback.
+Both `operator()`s are range-`for` loops over `connections()`: `end()` is read once (it is the address of the head), the
+callback runs, and only then `++it` reads `cur_->next_` — in the list as the callback left it. -/
+
+/-- what a callback does besides returning its value -/
+inductive Act where
+  | none
+  | reset (o : Nat)                              -- `owner_o = {}` / `owner_o.clear()`
+  | connect (h s f : Nat) (u : Option Nat)       -- `holder_h = optional_auto_connection{s.connect(f [, u])}` if `holder_h` is free
+  deriving Repr, DecidableEq
+
+/-- the operations on the connection lists that an action performs in state `st` (ghost trace for the specification) -/
+def actOps (st : State) : Act → List Fcppt.C11.Op
+  | .none => []
+  | .reset o => (st.own o).map Fcppt.C11.Op.delElem
+  | .connect h s _ _ =>
+    if (st.own h).isEmpty && !st.sig.store.live (.elem h) && st.sig.store.live (.head s) then [.newElem h s] else []
+
+def runAct (st : State) : Act → M State
+  | .none => .ok st
+  | .reset o => step st (.clear o)
+  | .connect h s f u =>
+    if (st.own h).isEmpty && !st.sig.store.live (.elem h) && st.sig.store.live (.head s) then step st (.connect h h s f u)
+    else .ok st
+
+/-- result of a call: final program state, callbacks invoked (in order), accumulator, trace of list operations performed -/
+structure CallResult where
+  st : State
+  log : List Nat
+  acc : Nat
+  trace : List Fcppt.C11.Op
+
+/-- the loop of `operator()` with effectful callbacks.  `comb = none`: the void specialisation (no accumulator). -/
+def callLoop (act : Nat → Act) (cb : Nat → Nat → Nat) (comb : Option (Nat → Nat → Nat)) (arg : Nat) (h : Node) :
+    Nat → Node → CallResult → M CallResult
+  | 0, cur, r => if cur = h then .ok r else .error .fuel
+  | fuel + 1, cur, r =>
+    if cur = h then .ok r else do                               -- it != end()
+      let x ← iterDeref r.st.sig.store (some cur)               -- auto &item = *it
+      let f ← match r.st.sig.conn x with                        -- item.function()
+        | some c => (.ok c.callback : M Nat)
+        | none => .error .oob
+      let st ← runAct r.st (act f)                              -- …(args...): the callback runs
+      let acc := match comb with
+        | some g => g r.acc (cb f arg)                          -- combiner_(std::move(state), result)
+        | none => r.acc
+      let n ← rdNext st.sig.store cur                           -- ++it, in the list as the callback left it
+      callLoop act cb comb arg h fuel n ⟨st, r.log ++ [f], acc, r.trace ++ actOps r.st (act f)⟩
+
+/-- `s(initial, arg)` / `s(arg)` with effectful callbacks; a non-void signal needs its combiner as soon as there is a
+connection (`std::bad_function_call` otherwise, as in `Sig.call`) -/
+def rcall (act : Nat → Act) (cb : Nat → Nat → Nat) (comb : Nat → Nat → Nat → Nat) (isVoid : Bool) (st : State)
+    (s fuel init arg : Nat) : M CallResult := do
+  let b ← rdNext st.sig.store (.head s)                         -- begin()
+  if b = .head s then .ok ⟨st, [], init, []⟩ else
+  if isVoid then callLoop act cb none arg (.head s) fuel b ⟨st, [], init, []⟩
+  else match st.sig.combiner s with
+    | none => .error .emptyDeref
+    | some c => callLoop act cb (some (comb c)) arg (.head s) fuel b ⟨st, [], init, []⟩
+
 end Hold
 
 end Fcppt.C11
